@@ -345,8 +345,16 @@ func c02PathTracker(c *engine.Ctx, rule string) {
 		if !ok {
 			return ""
 		}
+		// len(path.Segments()) is the same quantity
+		if bi, isB := cc.Call.Value.(*ssa.Builtin); isB && bi.Name() == "len" && len(cc.Call.Args) == 1 {
+			if inner, isC := engine.LocalValue(cc.Call.Args[0]).(*ssa.Call); isC {
+				if isc := inner.Call.StaticCallee(); isc != nil && isc.Name() == "Segments" && len(inner.Call.Args) == 1 {
+					cc = inner
+				}
+			}
+		}
 		sc := cc.Call.StaticCallee()
-		if sc == nil || sc.Name() != "Len" || len(cc.Call.Args) != 1 {
+		if sc == nil || (sc.Name() != "Len" && sc.Name() != "Segments") || len(cc.Call.Args) != 1 {
 			return ""
 		}
 		recv := engine.LocalValue(cc.Call.Args[0])
